@@ -122,7 +122,12 @@ _C07 = [
     M(["C07", "C19"], "epa-scan-no-advance", EP, "LooseEdges.find_triangles_facing_point_and_store_loose_edges", "i += 1", "i += 0", ["R-LOOP", "find_triangles"]),
     M(["C07", "C19"], "epa-edge-scan-no-advance", EP, "LooseEdges.add_removed_triangles_edges_to_list", "k += 1", "k += 0", ["R-LOOP", "add_removed"]),
 ]
-_C07 = [m for m in _C07 if m.name not in ()]
+_C07 += [
+    M(["C07"], "facerole-search-dir-vertex", EP, "epa", "search_direction = closest_face[3]", "search_direction = closest_face[2]", ["epa"]),
+    M(["C07"], "facerole-faces-point-normal", EP, "Polytope.triangle_faces_point", "np.dot(self.faces[i, 3], new_points - self.faces[i, 0])", "np.dot(self.faces[i, 3], new_points - self.faces[i, 3])", ["R-FACEROLE", "triangle_faces_point"]),
+    M(["C07"], "facerole-closest-dist", EP, "Polytope.find_face_closest_to_origin", "self.faces[:self.n_faces, 0] * self.faces[:self.n_faces, 3]", "self.faces[:self.n_faces, 0] * self.faces[:self.n_faces, 1]", ["find_face_closest_to_origin"]),
+    M(["C07"], "facerole-fallback-mtv", EP, "epa", "mtv = closest_face[3] * np.dot(closest_face[0], closest_face[3])", "mtv = closest_face[3] * np.dot(closest_face[0], closest_face[1])", ["R-FACEROLE", "epa"]),
+]
 
 _C14 = [
     M(["C14", "C20"], "disk-update-view-c", CO, "Disk.update_pose", "self.c = np.ascontiguousarray(pose[:3, 3])", "self.c = pose[:3, 3]", ["R-EAGER", "Disk.support_function"]),
@@ -307,9 +312,89 @@ _C08 = [
     M(["C08", "C02"], "simplex-add-point-rows", MK, "Simplex.add_point", "self.v2[self.n_points] = v2", "self.v2[self.n_points] = v1", ["R-PAR", "add_point"]),
 ]
 
-_ALL = _C05 + _C07 + _C14 + _C15 + _C16 + _C19 + _C20 + _C01 + _C18 + _C09 + _C08
+GE = "distance3d/geometry.py"
+CT = "distance3d/containment.py"
+CTT = "distance3d/containment_test.py"
+UT = "distance3d/utils.py"
+BX = "distance3d/distance/_box.py"
+LB = "distance3d/distance/_line_to_box.py"
+CI = "distance3d/distance/_circle.py"
+EL = "distance3d/distance/_ellipsoid.py"
+CY = "distance3d/distance/_cylinder.py"
+LI = "distance3d/distance/_line.py"
 
-FLOORS = {"C05": 40, "C07": 14, "C14": 9, "C15": 8, "C16": 12, "C19": 14, "C20": 10, "C01": 24, "C18": 24, "C09": 24, "C08": 10, "C02": 20}
+_C03 = [
+    M(["C03", "C12"], "frame-cylinder-no-T", GE, "support_function_cylinder", "np.dot(cylinder2origin[:3, :3].T, search_direction)", "np.dot(cylinder2origin[:3, :3], search_direction)", ["R-FRAME", "support_function_cylinder"]),
+    M(["C03", "C12"], "frame-cone-local-return", GE, "support_function_cone", "return transform_point(cone2origin, point_in_cone)", "return point_in_cone", ["R-FRAMERET", "support_function_cone"]),
+    M(["C03", "C12"], "frame-box-double-transform", GE, "support_function_box", "return transform_point(box2origin, local_vertex)", "return transform_point(box2origin, transform_point(box2origin, local_vertex))", ["R-FRAME", "support_function_box"]),
+    M(["C03", "C12"], "frame-ellipsoid-rotation-only", GE, "support_function_ellipsoid", "return transform_point(ellipsoid2origin, local_vertex)", "return np.dot(ellipsoid2origin[:3, :3].T, local_vertex)", ["R-FRAME", "support_function_ellipsoid"]),
+    M(["C03", "C12"], "frame-transform-point-T", UT, "transform_point", "np.dot(A2B[:3, :3], point_in_A)", "np.dot(A2B[:3, :3].T, point_in_A)", ["R-FRAME", "transform_point"]),
+    M(["C03", "C12"], "frame-inverse-no-T", UT, "inverse_transform_point", "RT = A2B[:3, :3].T", "RT = A2B[:3, :3]", ["R-FRAME", "inverse_transform_point"]),
+    M(["C03", "C12"], "frame-mesh-first-vertex", CO, "MeshGraph.first_vertex", "np.dot(self.mesh2origin[:3, :3], self.vertices[0])", "np.dot(self.mesh2origin[:3, :3].T, self.vertices[0])", ["R-FRAME", "MeshGraph.first_vertex"]),
+    M(["C03", "C12"], "frame-meshsupport-dir", ME, "MeshHillClimbingSupportFunction.__call__", "np.dot(self.mesh2origin[:3, :3].T, search_direction)", "np.dot(self.mesh2origin[:3, :3], search_direction)", ["R-FRAME", "MeshHillClimbingSupportFunction"]),
+    M(["C03"], "sign-cylinder-flipped", GE, "support_function_cylinder", "local_dir[2] < 0.0", "local_dir[2] > 0.0", ["R-SIGNALIGN", "support_function_cylinder"]),
+    M(["C03"], "sign-capsule-flipped", GE, "support_function_capsule", "local_vertex[2] += 0.5 * height", "local_vertex[2] -= 0.5 * height", ["R-SIGNALIGN", "support_function_capsule"]),
+    M(["C03"], "sign-capsule-wrong-axis", GE, "support_function_capsule", "local_vertex[2] -= 0.5 * height", "local_vertex[1] -= 0.5 * height", ["R-SIGNALIGN", "support_function_capsule"]),
+    M(["C03"], "sign-cylinder-radial-negative", GE, "support_function_cylinder", "d = radius / s", "d = -radius / s", ["R-SIGNALIGN", "support_function_cylinder"]),
+    M(["C03"], "sign-sphere-negative", GE, "support_function_sphere", "vertex = center + search_direction / s_norm * radius", "vertex = center - search_direction / s_norm * radius", ["R-SIGNALIGN", "support_function_sphere"]) ,
+    M(["C03"], "sign-cone-compare-flipped", GE, "support_function_cone", "np.dot(local_dir, disk_point) >= local_dir[2] * height", "np.dot(local_dir, disk_point) <= local_dir[2] * height", ["R-SIGNALIGN", "larger projection"]),
+    M(["C03"], "sign-cone-apex-wrong", GE, "support_function_cone", "point_in_cone = np.array([0.0, 0.0, height])", "point_in_cone = np.array([0.0, height, 0.0])", ["R-SIGNALIGN", "support_function_cone"]),
+    M(["C03"], "sign-disk-keeps-normal-comp", GE, "support_function_disk", "point[2] = 0.0", "point[1] = 0.0", ["R-AXIS", "disk"]),
+    M(["C03", "C04"], "margin-unnormalised", CO, "Margin.support_function", "self.margin * norm_vector(search_direction)", "self.margin * search_direction", ["R-MARGIN", "support_function"]),
+    M(["C03", "C04"], "margin-subtracted", CO, "Margin.support_function", "self.collider.support_function(search_direction) + self.margin * norm_vector(search_direction)",
+      "self.collider.support_function(search_direction) - self.margin * norm_vector(search_direction)", ["R-MARGIN", "support_function"]),
+    M(["C03", "C04"], "margin-center-not-delegated", CO, "Margin.center", "return self.collider.center()", "return self.collider.first_vertex()", ["R-MARGIN", "center"]),
+    M(["C03", "C04", "C13"], "axis-cylinder-aabb", CT, "cylinder_aabb", "axis = cylinder2origin[:3, 2]", "axis = cylinder2origin[:3, 1]", ["R-AXIS", "cylinder"]),
+    M(["C03", "C04", "C13"], "axis-cone-first-vertex", CO, "Cone.first_vertex", "self.height * self.cone2origin[:3, 2]", "self.height * self.cone2origin[:3, 0]", ["R-AXIS", "cone"]),
+    M(["C03", "C04"], "aabbargs-swapped", CO, "Capsule.support_function", "support_function_capsule(search_direction, self.capsule2origin, self.radius, self.height)",
+      "support_function_capsule(search_direction, self.capsule2origin, self.height, self.radius)", ["R-AABBARGS", "Capsule.support_function"]),
+    M(["C03", "C04"], "aabbargs-wrong-shape", CO, "Cylinder.aabb", "cylinder_aabb(self.cylinder2origin, self.radius, self.length)", "capsule_aabb(self.cylinder2origin, self.radius, self.length)", ["R-AABBARGS", "Cylinder.aabb"]),
+]
+
+_C04 = [
+    M(["C04"], "marginbox-both-added", CO, "Margin.aabb", "mins = aabb[:, 0] - self.margin", "mins = aabb[:, 0] + self.margin", ["R-MARGIN", "aabb"]),
+    M(["C04"], "marginbox-columns", CO, "Margin.aabb", "maxs = aabb[:, 1] + self.margin", "maxs = aabb[:, 0] + self.margin", ["R-MARGIN", "aabb"]),
+    M(["C04", "C12"], "aabb-capsule-local-center", CT, "capsule_aabb", "return (capsule2origin[:3, 3] - extent, capsule2origin[:3, 3] + extent)",
+      "return (-extent, extent)", ["R-FRAMERET", "capsule_aabb"]) ,
+    M(["C04", "C12"], "aabb-mesh-no-rotation", CO, "MeshGraph.aabb", "np.dot(self.vertices, self.mesh2origin[:3, :3].T)", "self.vertices", ["R-FRAME", "MeshGraph.aabb"]),
+    M(["C04", "C12"], "aabb-mesh-wrong-T", CO, "MeshGraph.aabb", "np.dot(self.vertices, self.mesh2origin[:3, :3].T)", "np.dot(self.vertices, self.mesh2origin[:3, :3])", ["R-FRAME", "MeshGraph.aabb"]),
+    M(["C04", "C12"], "degree-cylinder-extent", CT, "cylinder_aabb", "0.5 * length * np.abs(axis) + radius * np.sqrt(1.0 - axis * axis)", "0.5 * length * np.abs(axis) + radius * radius * np.sqrt(1.0 - axis * axis)", ["R-DEGREE", "cylinder_aabb"]),
+    M(["C04", "C12"], "degree-ellipse-extent", CT, "ellipse_aabb", "np.sqrt((radii[0] * axes[0]) ** 2 + (radii[1] * axes[1]) ** 2)", "(radii[0] * axes[0]) ** 2 + (radii[1] * axes[1]) ** 2", ["R-DEGREE", "ellipse_aabb"]),
+    M(["C04", "C12"], "degree-cone-e", CT, "cone_aabb", "np.sqrt(1.0 - a * a / (height * height))", "np.sqrt(1.0 - a * a / height)", ["R-DEGREE", "cone_aabb"]),
+]
+
+_C12 = [
+    M(["C12", "C10"], "degree-squared-distance-returned", LI, "_line_to_line", "math.sqrt(abs(dist_squared))", "abs(dist_squared)", ["R-", "line"]),
+    M(["C12", "C11"], "degree-circle-critical-point", CI, "_case_general", "(radius_m0_squared * b1_squared) ** (2.0 / 3.0) - b1_squared", "m0_squared * b1_squared ** (2.0 / 3.0) - b1_squared", ["R-DEGREE", "_case_general"]),
+    M(["C12", "C10"], "degree-cylinder-clip", CY, "point_to_cylinder", "np.clip(dist_to_plane, -0.5 * length, 0.5 * length)", "np.clip(dist_to_plane, -0.5, 0.5)", ["R-"]) ,
+    M(["C12", "C10"], "frame-point-to-box-local", BX, "point_to_box", "closest_point = box2origin[:3, 3] + box2origin[:3, :3].dot(closest_point_in_box)", "closest_point = closest_point_in_box", ["R-FRAME", "point_to_box"]),
+    M(["C12", "C10"], "frame-point-to-box-world-clip", BX, "point_to_box", "np.clip(point_in_box, -half_size, half_size)", "np.clip(point, -half_size, half_size)", ["R-FRAME", "point_to_box"]),
+    M(["C12", "C10"], "frame-line-to-box-direction", LB, "_line_to_box", "direction_in_box = origin2box[:3, :3].dot(line_direction)", "direction_in_box = box2origin[:3, :3].dot(line_direction)", ["R-FRAME", "_line_to_box"]),
+    M(["C12", "C10"], "frame-ellipsoid-return-local", EL, "point_to_ellipsoid", "ellipsoid2origin[:3, 3] + ellipsoid2origin[:3, :3].dot(closest_point_in_ellipsoid)", "ellipsoid2origin[:3, 3] + closest_point_in_ellipsoid", ["R-FRAME", "point_to_ellipsoid"]),
+    M(["C12", "C09"], "frame-nesterov-relative-pose", NE, "support_function", "oR1 = np.dot(collider02origin[:3, :3].T, collider12origin[:3, :3])", "oR1 = np.dot(collider02origin[:3, :3], collider12origin[:3, :3])", ["R-FRAME", "support_function"]),
+    M(["C12"], "frame-invert-transform", UT, "invert_transform", "B2A[:3, 3] = -np.dot(RT, A2B[:3, 3])", "B2A[:3, 3] = -A2B[:3, 3]", ["R-FRAME", "invert_transform"]),
+]
+
+_C13 = [
+    M(["C13"], "closed-sphere-strict", CTT, "points_in_sphere", "squared_dist <= radius * radius", "squared_dist < radius * radius", ["R-CLOSEDSET", "points_in_sphere"]),
+    M(["C13"], "closed-cylinder-nonstrict-exclusion", CTT, "points_in_cylinder", "np.abs(dist_to_plane) > 0.5 * length", "np.abs(dist_to_plane) >= 0.5 * length", ["R-CLOSEDSET", "points_in_cylinder"]),
+    M(["C13"], "closed-box-strict", CTT, "points_in_box", "np.abs(points) <= 0.5 * size", "np.abs(points) < 0.5 * size", ["R-CLOSEDSET", "points_in_box"]),
+    M(["C13"], "closed-mesh-nonstrict", CTT, "points_in_convex_mesh", "normal_projected_points > 0.0", "normal_projected_points >= 0.0", ["R-CLOSEDSET", "points_in_convex_mesh"]),
+    M(["C13"], "closed-batch-axis", CTT, "points_in_box", "np.all(np.abs(points) <= 0.5 * size, axis=1)", "np.all(np.abs(points) <= 0.5 * size, axis=0)", ["R-CLOSEDSET", "points_in_box"]),
+    M(["C13", "C12"], "frame-box-test-no-T", CTT, "points_in_box", "np.dot(points, origin2box[:3, :3].T)", "np.dot(points, origin2box[:3, :3])", ["R-FRAME", "points_in_box"]),
+    M(["C13", "C12"], "frame-ellipsoid-test-forward-pose", CTT, "points_in_ellipsoid", "origin2ellipsoid = invert_transform(ellipsoid2origin)", "origin2ellipsoid = ellipsoid2origin", ["R-FRAME", "points_in_ellipsoid"]),
+    M(["C13", "C12"], "degree-sphere-test", CTT, "points_in_sphere", "squared_dist <= radius * radius", "squared_dist <= radius", ["R-DEGREE", "points_in_sphere"]),
+    M(["C13", "C12"], "degree-cone-radii", CTT, "points_in_cone", "sqr_dist_in_plane > radii * radii", "sqr_dist_in_plane > radii", ["R-DEGREE", "points_in_cone"]),
+]
+
+_C16b = [
+    M(["C16"], "frame-contact-surface-transform", "distance3d/hydroelastic_contact/_rigid_body.py", "RigidBody.express_in", "body2new_body = np.dot(origin2new_body, self.body2origin_)", "body2new_body = np.dot(self.body2origin_, origin2new_body)", ["R-FRAME", "express_in"]),
+    M(["C16"], "frame-express-in-no-invert", "distance3d/hydroelastic_contact/_rigid_body.py", "RigidBody.express_in", "origin2new_body = invert_transform(new_body2origin)", "origin2new_body = new_body2origin", ["R-FRAME", "express_in"]),
+]
+
+_ALL = _C05 + _C07 + _C14 + _C15 + _C16 + _C19 + _C20 + _C01 + _C18 + _C09 + _C08 + _C03 + _C04 + _C12 + _C13 + _C16b
+
+FLOORS = {"C05": 40, "C07": 14, "C14": 9, "C15": 8, "C16": 12, "C19": 14, "C20": 10, "C01": 24, "C18": 24, "C09": 24, "C08": 10, "C02": 20, "C03": 18, "C04": 12, "C12": 20, "C13": 10}
 
 
 def all_mutants():
